@@ -100,8 +100,31 @@ def source_gate():
     return bad
 
 
-def coq_build(targets=None, timeout=1500):
-    """(re)build the development under a lock.  Returns (ok, log)."""
+def _closure(rel_files):
+    """transitive `From Circ Require` closure of the given theories-relative .v files"""
+    seen, todo = [], list(rel_files)
+    while todo:
+        f = todo.pop()
+        if f in seen:
+            continue
+        p = os.path.join(COQ, 'theories', f)
+        if not os.path.exists(p):
+            continue
+        seen.append(f)
+        txt = re.sub(r'\(\*.*?\*\)', '', open(p).read(), flags=re.S)
+        for m in re.finditer(r'From\s+Circ\s+Require\s+(?:Import\s+|Export\s+)?([^.]*(?:\.[A-Za-z_][\w.]*)*[^.]*)\.\s', txt):
+            for mod in m.group(1).split():
+                todo.append(mod.replace('.', '/') + '.v')
+        for m in re.finditer(r'Require\s+(?:Import\s+|Export\s+)?((?:Circ\.[\w.]+\s*)+)\.\s', txt):
+            for mod in m.group(1).split():
+                todo.append(mod[len('Circ.'):].replace('.', '/') + '.v')
+    return sorted(seen)
+
+
+def coq_build(targets=None, timeout=1500, tag='all'):
+    """(re)build the development (or the closure of the given theories-relative .v files) under a lock.
+    Returns (ok, log).  Each property builds through its own Makefile so that a broken file that it does not
+    depend on cannot break its build."""
     os.makedirs(BUILD, exist_ok=True)
     with open(os.path.join(BUILD, '.lock'), 'w') as lk:
         fcntl.flock(lk, fcntl.LOCK_EX)
@@ -112,17 +135,20 @@ def coq_build(targets=None, timeout=1500):
                 return False, 'translator-broken: ' + msg
         except ImportError:
             pass
-        vs = sorted(os.path.relpath(os.path.join(r, f), COQ)
-                    for r, _, fs in os.walk(os.path.join(COQ, 'theories')) for f in fs if f.endswith('.v'))
-        stamp = os.path.join(COQ, '.vfiles')
+        if targets:
+            vs = ['theories/' + f for f in _closure(targets)]
+        else:
+            vs = sorted(os.path.relpath(os.path.join(r, f), COQ)
+                        for r, _, fs in os.walk(os.path.join(COQ, 'theories')) for f in fs if f.endswith('.v'))
+        mk = 'Makefile.' + tag
+        stamp = os.path.join(COQ, '.vfiles.' + tag)
         cur = '\n'.join(vs)
-        if not os.path.exists(os.path.join(COQ, 'Makefile')) or not os.path.exists(stamp) or open(stamp).read() != cur:
-            rc, out = _run(['coq_makefile', '-f', '_CoqProject', '-o', 'Makefile'] + vs, cwd=COQ)
+        if not os.path.exists(os.path.join(COQ, mk)) or not os.path.exists(stamp) or open(stamp).read() != cur:
+            rc, out = _run(['coq_makefile', '-f', '_CoqProject', '-o', mk] + vs, cwd=COQ)
             if rc != 0:
                 return False, out
             open(stamp, 'w').write(cur)
-        cmd = ['make', '-j16'] + (targets or [])
-        rc, out = _run(cmd, cwd=COQ, timeout=timeout)
+        rc, out = _run(['make', '-f', mk, '-j16'], cwd=COQ, timeout=timeout)
         return rc == 0, out
 
 
@@ -417,8 +443,8 @@ def main(prop, argv=None):
         broken.append('source gate: ' + '; '.join(gate))
     targets = None
     if prop.props_file:
-        targets = ['theories/' + prop.props_file + 'o'] + ['theories/' + m.replace('.', '/') + '.vo' for m in prop.imports]
-    ok, blog = (True, '') if a.no_build else coq_build(targets)
+        targets = [prop.props_file] + [m.replace('.', '/') + '.v' for m in prop.imports]
+    ok, blog = (True, '') if a.no_build else coq_build(targets, tag=pid)
     thms = []
     if not ok:
         broken.append('coq build failed: ' + blog[-1500:])
